@@ -59,6 +59,23 @@ pub fn impl_rs(c: &RsCase) -> Vec<String> {
             let log = shared.log.lock().unwrap().clone();
             outs.push(format!("{}\t{}\t{}", s, enc_events(&log), log.len()));
         }
+        // "passing a serializable input gives the same outcomes as passing its serialized value" — and the same invocations:
+        // the input that denotes `facts`, through RuleSet::evaluate(&T), on the same ruleset object
+        if outs.len() >= 1 && outs[0].starts_with("(outcomes") {
+            if let Some(sv) = crate::serval::from_value(&c.facts) {
+                shared.log.lock().unwrap().clear();
+                let s = match catch_unwind(AssertUnwindSafe(|| block_on(rs.evaluate(&sv)))) {
+                    Err(p) => format!("PANIC {}", panic_msg(p).replace(['\t', '\n'], " ")),
+                    Ok(Ok(os)) => format!("(outcomes{})", os.iter().map(|o| format!(" {}", enc_result(&o.value))).collect::<String>()),
+                    Ok(Err(e)) => format!("EVALERR {}", enc_err(&e)),
+                };
+                let log = shared.log.lock().unwrap().clone();
+                let via = format!("{}\t{}\t{}", s, enc_events(&log), log.len());
+                if via != outs[0] {
+                    outs[0] = format!("(evaluate-of-the-serializable-input-differs evaluate_value {} evaluate {})\t{}\t{}", field(&outs[0], 0), s, enc_events(&log), log.len());
+                }
+            }
+        }
         // "the same result as evaluating that rule's expression on its own": without symbols and functions a rule's
         // expression can be evaluated stand-alone (Expr::evaluate) — it must give what the ruleset gave
         if c.env.syms.is_empty() && c.env.fns.is_empty() && c.rules.len() <= 64 && outs.len() == 1 && outs[0].starts_with("(outcomes") {
